@@ -221,6 +221,13 @@ def random_scripts(rng, n, maxlen=200):
         out += [b'\x51' + btc.push(enc['hybrid']) + btc.push(enc['compressed']) + b'\x52\xae',
                 b'\x52' + btc.push(enc['uncompressed']) + btc.push(enc['hybrid']) + btc.push(enc['compressed']) + b'\x53\xae',
                 btc.p2pkh(btc.hash160(enc['hybrid'])), btc.p2pkh(btc.hash160(enc['uncompressed'])), b'\x51\x20' + enc['compressed'][1:]]
+    # repetition: the byte-identical script several times in a row, directly after a script of another kind (what one evaluation
+    # leaves behind - also on its error paths - must not colour the next): v0 witness programs of illegal length, truncated
+    # pushes, templates
+    for bad in (b'\x00\x10' + rng.randbytes(16), b'\x00\x05' + rng.randbytes(5), b'\x00\x28' + rng.randbytes(40), b'\x76\xa9\x4c', b'\x6a\x4d\x05',
+                b'\x51\x21' + rng.randbytes(33), b'\x00\x14' + rng.randbytes(20), b'\x76\xa9\x14' + rng.randbytes(19)):
+        for before in (btc.p2pkh(rng.randbytes(20)), btc.p2sh(rng.randbytes(20)), b'\x51\x20' + rng.randbytes(32), btc.p2pk(k)):
+            out += [before, bad, bad, bad, before]
     # scripts beyond Bitcoin's 10 000-byte script size limit are still just scripts for a parser
     out += [b'\x51' * 10001, b'\x6a' + btc.push(rng.randbytes(10100)), b'\x51' + btc.push(rng.randbytes(10050)) + b'\x51\xae',
             b'\x75' * 10000, b'\x75' * 20000]
